@@ -16,7 +16,7 @@ def prop(pid):
     return deco
 TESTED_ONLY = {
  'C01': ['a basis of exactly k+1 points, no two simplices sharing a basis, maxOrder = largest populated order: proved only for complexes on <= 4 points (kernel sweep); beyond that by the wf oracle after every step of every history (k+1 distinct faces of order k-1 is proved for every history of public operations)'],
- 'C02': ['effects and frames of delete / restrict / add by basis / subdivide beyond 4 points (add by faces and bulk add without renaming are proved for every history); bulk add under a renaming; attribute read-back (oracle c02-pre/post)'],
+ 'C02': ['the vertex-set reading of the star; effects and frames of restrict / add by basis / subdivide beyond 4 points (add by faces, bulk add without renaming, removal of one simplex and deleteSimplex are proved for every history); bulk add under a renaming; attribute read-back (oracle c02-pre/post)'],
  'C03': ['basis = closure points, d.d = 0, boundary() of chains beyond 4 points (views oracle after every step); shapes, entries and cofaces = inverse of faces are proved for every history'],
  'C04': ['the vertex-set reading of closure / star (subsets, supersets, 2^(k+1)-1 members), sortedness, lookups beyond 4 points; disjoint() beyond 3 points and for 4-tuples; returned names having the Python type they were created with (oracle c04); closure/star duality and no-repeats of the star are proved for every history'],
  'C05': ['continuation after a rejected call behaves as if it had not been made (twin-history oracle); atomicity of addSimplexWithBasis / relabel beyond the cases proved'],
